@@ -108,9 +108,21 @@ def compare(text, ctx, case, expected=None, want_ok=False):
         ctx.stat('load_outcome:%s:%s' % (pl, po[0] if po[0] != 'err' else po[1]))
         if po != co:
             bad.append({'what': 'constructed objects differ between back-ends', 'pair': [pl, cl], 'diff': first_diff(po, co)})
+    mech = None
+    if bad:
+        t = text
+        if isinstance(t, bytes):
+            try:
+                t = t.decode('utf-16' if t.startswith((b'\xff\xfe', b'\xfe\xff')) else 'utf-8')
+            except UnicodeDecodeError:
+                t = ''
+        # F14: libyaml skips the token after an empty single-pair key in a flow sequence.  Only differences that involve
+        # the C side can be explained by it (never a Python-side disagreement with the events known by construction)
+        if sigs.f14_text(t) and all(b.get('loader') != 'Loader' and 'rejected by the Python parser' not in b['what'] for b in bad):
+            mech = 'F14'
     for b in bad:
         b['text'] = text if isinstance(text, (str, bytes)) and len(text) < 3000 else text[:3000]
-        ctx.violation(case, b, None)
+        ctx.violation(case, b, mech)
     return not bad
 
 
@@ -171,7 +183,7 @@ def plant_error(r, docs):
 
 
 def error_case(r, ctx, i):
-    g = gdoc.Gen(r, tags=False, p_alias=0.05)
+    g = gdoc.Gen(r, tags=False, p_alias=0.05, empty_keys=False)
     docs = g.stream(ndocs=1)
     kind, want = plant_error(r, docs)
     if kind == 'second_document':
